@@ -114,6 +114,10 @@ class NmtMaster(NmtBase):
         super(NmtMaster, self).__init__(node_id)
         self._state_received = None
         self._bootup_received = False
+        #: Number of heartbeat and of boot-up messages received, what
+        #: waiting threads compare with the number at the time they started
+        self._heartbeats = 0
+        self._bootups = 0
         self._node_guarding_producer: Optional[PeriodicMessageTask] = None
         #: Timestamp of last heartbeat message
         self.timestamp: Optional[float] = None
@@ -133,9 +137,11 @@ class NmtMaster(NmtBase):
                 # Boot-up, will go to PRE-OPERATIONAL automatically
                 self._state = 127
                 self._bootup_received = True
+                self._bootups += 1
             else:
                 self._state = new_state
             self._state_received = new_state
+            self._heartbeats += 1
             self.state_update.notify_all()
 
     def send_command(self, code: int):
@@ -153,17 +159,19 @@ class NmtMaster(NmtBase):
         """Wait until a heartbeat message is received."""
         with self.state_update:
             self._state_received = None
-            self.state_update.wait(timeout)
-        if self._state_received is None:
-            raise NmtError("No boot-up or heartbeat received")
-        return self.state
+            seen = self._heartbeats
+            self.state_update.wait_for(lambda: self._heartbeats != seen, timeout)
+            if self._heartbeats == seen:
+                raise NmtError("No boot-up or heartbeat received")
+            return self.state
 
     def wait_for_bootup(self, timeout: float = 10) -> None:
         """Wait until a boot-up message is received."""
         end_time = time.time() + timeout
         with self.state_update:
             self._bootup_received = False
-            while not self._bootup_received:
+            seen = self._bootups
+            while self._bootups == seen:
                 now = time.time()
                 if now > end_time:
                     raise NmtError("Timeout waiting for boot-up message")
